@@ -363,6 +363,331 @@ theorem data_shift_is_store_step (d : Data) (name : String) (loc : Loc) (m : Opt
   simp only [shiftSolutionValues, step]
   cases dget d (loc, name) <;> rfl
 
+/-! ### the equation-system wrappers -/
+
+/-- **set then get.** `set_variable_values(v, variables, index)` followed by
+    `get_variable_values(variables, index)` at the same location and index returns `v`, for any
+    layout with distinct storage names, any selection and any previous contents, provided `v` has the
+    size of the selected blocks (otherwise see `es_set_wrong_size`). -/
+theorem es_set_get_roundtrip (lay : Layout) (hnd : (lay.map (·.1)).Nodup) (d : Data) (values : Val)
+    (sel : List String) (loc : Loc) (i : Nat) (hlen : values.length = selSize sel lay) :
+    (esSet lay d values sel (tsArg loc i) (itArg loc i) false).2 = .ok ∧
+      esGet lay (esSet lay d values sel (tsArg loc i) (itArg loc i) false).1 sel (tsArg loc i) (itArg loc i)
+        = .val values := by
+  have hok := esSetLoop_ok sel loc i values lay d 0
+  have hget := esGetLoop_esSetLoop sel loc i values lay hnd d 0
+  simp only [esSet, esGet, hok.1, hok.2, Nat.zero_add, hlen, if_true]
+  refine ⟨trivial, ?_⟩
+  rw [hget, ← hlen]
+  simp
+
+/-- **block by block.** After `set_variable_values`, the slot of every selected variable holds its
+    own slice `v[off : off + n]` of the vector (`off` = sum of the sizes of the selected blocks
+    before it in global order), whatever the order of the argument list. -/
+theorem es_set_blocks (lay : Layout) (hnd : (lay.map (·.1)).Nodup) (d : Data) (values : Val)
+    (sel : List String) (loc : Loc) (i : Nat) (name : String) (n off : Nat)
+    (hb : (name, n) ∈ lay) (hoff : blockOffset sel name lay = some off) :
+    slotOf (esSet lay d values sel (tsArg loc i) (itArg loc i) false).1 loc name i
+      = some ((values.drop off).take n) := by
+  have hok := esSetLoop_ok sel loc i values lay d 0
+  have := esSetLoop_block sel loc i values lay hnd d 0 name n off hb hoff
+  simp only [Nat.zero_add] at this
+  simp only [esSet, hok.1]
+  exact this
+
+/-- a vector of the wrong size trips the final assertion (after the writes were made) -/
+theorem es_set_wrong_size (lay : Layout) (d : Data) (values : Val) (sel : List String) (loc : Loc)
+    (i : Nat) (hlen : values.length ≠ selSize sel lay) :
+    (esSet lay d values sel (tsArg loc i) (itArg loc i) false).2 = .err .assertionError := by
+  have hok := esSetLoop_ok sel loc i values lay d 0
+  have hne : ¬ (selSize sel lay = values.length) := fun e => hlen e.symm
+  simp only [esSet, hok.1, hok.2, Nat.zero_add, if_neg hne]
+
+/-- **shift on every variable simultaneously.** `shift_time_step_values` / `shift_iterate_values` on
+    distinct variables whose individual shifts do not raise: every selected variable's history at that
+    location is replaced by its store-level shift, everything else is untouched. -/
+theorem es_shift_simultaneous (sel : List String) (hnd : sel.Nodup) (loc : Loc) (m : Option Int) (d : Data)
+    (hok : ∀ n ∈ sel, ∀ s, dget d (loc, n) = some s → (shift s m).2 = none) :
+    (esShift d loc m sel).2 = .ok ∧
+      ∀ k : Key, dget (esShift d loc m sel).1 k
+        = if k.1 = loc ∧ k.2 ∈ sel then (dget d k).map (fun s => (shift s m).1) else dget d k := by
+  induction sel generalizing d with
+  | nil => exact ⟨rfl, fun k => by simp [esShift]⟩
+  | cons n rest ih =>
+    have hn := List.nodup_cons.mp hnd
+    unfold esShift
+    cases hs : dget d (loc, n) with
+    | none =>
+      have h1 : shiftSolutionValues d n (some loc) m = (d, .ok) := by simp [shiftSolutionValues, hs]
+      rw [h1]
+      simp only
+      have := ih hn.2 d (fun n' hn' => hok n' (List.mem_cons_of_mem _ hn'))
+      refine ⟨this.1, fun k => ?_⟩
+      rw [this.2 k]
+      by_cases hk : k = (loc, n)
+      · subst hk
+        simp [hn.1, hs]
+      · have : (k.1 = loc ∧ k.2 ∈ n :: rest) ↔ (k.1 = loc ∧ k.2 ∈ rest) := by
+          constructor
+          · rintro ⟨h1, h2⟩
+            rcases List.mem_cons.mp h2 with e | e
+            · exact absurd (Prod.ext h1 e) hk
+            · exact ⟨h1, e⟩
+          · rintro ⟨h1, h2⟩; exact ⟨h1, List.mem_cons_of_mem _ h2⟩
+        simp only [this]
+    | some s =>
+      have hsok := hok n (List.mem_cons_self) s hs
+      have h1 : shiftSolutionValues d n (some loc) m = (dput d (loc, n) (shift s m).1, .ok) := by
+        simp [shiftSolutionValues, hs, hsok]
+      rw [h1]
+      simp only
+      have hok' : ∀ n' ∈ rest, ∀ s', dget (dput d (loc, n) (shift s m).1) (loc, n') = some s' →
+          (shift s' m).2 = none := by
+        intro n' hn' s' hs'
+        have hne : (loc, n') ≠ (loc, n) := fun e => hn.1 ((Prod.mk.inj e).2 ▸ hn')
+        rw [dget_dput', if_neg hne] at hs'
+        exact hok n' (List.mem_cons_of_mem _ hn') s' hs'
+      have := ih hn.2 _ hok'
+      refine ⟨this.1, fun k => ?_⟩
+      rw [this.2 k, dget_dput']
+      by_cases hk : k = (loc, n)
+      · subst hk
+        simp [hn.1, hs]
+      · have : (k.1 = loc ∧ k.2 ∈ n :: rest) ↔ (k.1 = loc ∧ k.2 ∈ rest) := by
+          constructor
+          · rintro ⟨h1, h2⟩
+            rcases List.mem_cons.mp h2 with e | e
+            · exact absurd (Prod.ext h1 e) hk
+            · exact ⟨h1, e⟩
+          · rintro ⟨h1, h2⟩; exact ⟨h1, List.mem_cons_of_mem _ h2⟩
+        simp only [this, if_neg hk]
+
+/-- … in window terms: if every selected variable's history is a (hole-free) window, the wrapper
+    shifts all these windows by one, never raising. -/
+theorem es_shift_windows (sel : List String) (hnd : sel.Nodup) (loc : Loc) (m : Option Nat) (d : Data)
+    (w : String → Window) (hrep : ∀ n ∈ sel, ∃ s, dget d (loc, n) = some s ∧ Repr s (w n)) :
+    (esShift d loc (m.map Int.ofNat) sel).2 = .ok ∧
+      ∀ n ∈ sel, ∃ s', dget (esShift d loc (m.map Int.ofNat) sel).1 (loc, n) = some s' ∧
+        Repr s' (wshift (w n) m) := by
+  have hok : ∀ n ∈ sel, ∀ s, dget d (loc, n) = some s → (shift s (m.map Int.ofNat)).2 = none := by
+    intro n hn s hs
+    obtain ⟨s0, hs0, hr⟩ := hrep n hn
+    rw [hs] at hs0
+    cases hs0
+    exact (shift_refines hr m).1
+  have := es_shift_simultaneous sel hnd loc (m.map Int.ofNat) d hok
+  refine ⟨this.1, fun n hn => ?_⟩
+  obtain ⟨s0, hs0, hr⟩ := hrep n hn
+  refine ⟨(shift s0 (m.map Int.ofNat)).1, ?_, (shift_refines hr m).2⟩
+  rw [this.2 (loc, n)]
+  simp [hn, hs0]
+
+/-- the same for a layout read off a state of the C05 model of `EquationSystem` -/
+theorem es_set_get_roundtrip_c05 (s : C05.State) (hnd : ((layoutOf s).map (·.1)).Nodup) (d : Data)
+    (values : Val) (sel : List String) (loc : Loc) (i : Nat)
+    (hlen : values.length = selSize sel (layoutOf s)) :
+    esGet (layoutOf s) (esSet (layoutOf s) d values sel (tsArg loc i) (itArg loc i) false).1 sel
+        (tsArg loc i) (itArg loc i) = .val values :=
+  (es_set_get_roundtrip (layoutOf s) hnd d values sel loc i hlen).2
+
+/-! ### aliasing: the model with references -/
+
+/-- every call of the code as it is keeps the slots separated from each other and from the caller -/
+theorem sep_step (st : HState) (op : HOp) (h : Sep st) : Sep (hstep codePolicy st op).1 := by
+  cases op with
+  | new v => exact (sep_alloc_held st v h).1
+  | mutate k v =>
+    simp only [hstep]
+    cases st.held[k]? <;> exact h
+  | set i k =>
+    simp only [hstep]
+    cases st.held[k]? with
+    | none => exact h
+    | some r => exact (sep_alloc_store st (deref st r) i h).1
+  | add i k =>
+    simp only [hstep]
+    cases st.held[k]? with
+    | none => exact h
+    | some r => cases alookup st.store i <;> exact h
+  | get i =>
+    simp only [hstep]
+    cases alookup st.store i with
+    | none => exact h
+    | some q => exact (sep_alloc_held st (deref st q) h).1
+  | shift m =>
+    simp only [hstep]
+    cases shiftStart st.store.length m with
+    | none => exact h
+    | some top =>
+      have hc : (if top = st.store.length then codePolicy.copyShiftOldest else codePolicy.copyShift) = true := by
+        split <;> rfl
+      simp only [hc]
+      exact (hshiftLoop_spec top st h).1
+
+/-- **No sharing, ever.** After any history of caller actions (creating arrays, overwriting them in
+    place) and storage calls (set / additive set / get / shift, any indices and depths), no two slots
+    share a reference and no slot shares a reference with an array the caller holds. -/
+theorem sep_reachable (ops : List HOp) : Sep (hexec codePolicy HState.empty ops) := by
+  suffices ∀ st, Sep st → Sep (hexec codePolicy st ops) from
+    this _ ⟨by simp [HState.empty], by simp [HState.empty], by simp [HState.empty], by simp [HState.empty]⟩
+  induction ops with
+  | nil => exact fun _ h => h
+  | cons op ops ih => exact fun st h => ih _ (sep_step st op h)
+
+/-- one call on the heap model is the value-level call on the denoted store (array arguments read at
+    call time); what the caller does with its own arrays is invisible to the store -/
+theorem heap_step_refines (st : HState) (op : HOp) (h : Sep st) :
+    match valueOp st op with
+    | none => view (hstep codePolicy st op).1 = view st ∧ (hstep codePolicy st op).2 = .ok
+    | some vop => view (hstep codePolicy st op).1 = (step (view st) vop).1 ∧
+        (hstep codePolicy st op).2 = (step (view st) vop).2 := by
+  cases op with
+  | new v => exact ⟨(sep_alloc_held st v h).2, rfl⟩
+  | mutate k v =>
+    simp only [valueOp, hstep]
+    cases hk : st.held[k]? with
+    | none => exact ⟨rfl, rfl⟩
+    | some r =>
+      refine ⟨view_congr st _ rfl (fun q hq => ?_), rfl⟩
+      have hr : r ∈ st.held := List.mem_of_getElem? hk
+      have hne : q ≠ r := fun e => h.2.1 q hq (e ▸ hr)
+      simp only [deref, alookup_ainsert, if_neg hne]
+  | set i k =>
+    simp only [valueOp, hstep]
+    cases st.held[k]? with
+    | none => exact ⟨rfl, rfl⟩
+    | some r => exact ⟨(sep_alloc_store st (deref st r) i h).2, rfl⟩
+  | add i k =>
+    simp only [valueOp, hstep]
+    cases st.held[k]? with
+    | none => exact ⟨rfl, rfl⟩
+    | some r =>
+      simp only [Option.map_some, step, addAt, lookup_view]
+      cases hq : alookup st.store i with
+      | none => exact ⟨rfl, rfl⟩
+      | some q =>
+        simp only [Option.map_some]
+        refine ⟨?_, trivial⟩
+        have := map_update_eq_ainsert (deref st) (vadd (deref st q) (deref st r)) st.store i q h.1 hq
+        unfold view insert
+        rw [← this]
+        apply List.map_congr_left
+        intro p _
+        simp only [deref, alookup_ainsert]
+        split <;> rfl
+  | get i =>
+    simp only [valueOp, hstep, step, lookup_view]
+    cases hq : alookup st.store i with
+    | none => exact ⟨rfl, rfl⟩
+    | some q => exact ⟨(sep_alloc_held st (deref st q) h).2, rfl⟩
+  | shift m =>
+    simp only [valueOp, hstep, step, shift, length_view]
+    cases shiftStart st.store.length m with
+    | none => exact ⟨rfl, rfl⟩
+    | some top =>
+      have hc : (if top = st.store.length then codePolicy.copyShiftOldest else codePolicy.copyShift) = true := by
+        split <;> rfl
+      simp only [hc]
+      have hl := hshiftLoop_spec top st h
+      refine ⟨hl.2.1, ?_⟩
+      rw [hl.2.2.1]
+      cases (shiftLoop top (view st)).2 <;> rfl
+
+/-- **The value-level model is a faithful abstraction of the code with sharing.** For every history
+    on the heap model — including the caller overwriting, at any time, any array it passed in or got
+    back — the outputs are those of the immutable model replayed with the array contents at call
+    time.  (So the refinement and sliding-window theorems above apply to the model with sharing.) -/
+theorem heap_run_refines (ops : List HOp) (st : HState) (h : Sep st) :
+    hrun codePolicy st ops = vrun st (view st) ops := by
+  induction ops generalizing st with
+  | nil => rfl
+  | cons op ops ih =>
+    have hs := heap_step_refines st op h
+    have hsep := sep_step st op h
+    simp only [hrun, vrun]
+    cases hv : valueOp st op with
+    | none =>
+      rw [hv] at hs
+      simp only [hs.2, ih _ hsep, hs.1]
+    | some vop =>
+      rw [hv] at hs
+      simp only [hs.2, ih _ hsep, hs.1]
+
+/-- no storage call alters an array the caller holds, and the caller keeps what it holds -/
+theorem held_stable_step (st : HState) (op : HOp) (h : Sep st) (hm : isMutate op = false) :
+    (∀ r ∈ st.held, deref (hstep codePolicy st op).1 r = deref st r) ∧
+      (∀ r ∈ st.held, r ∈ (hstep codePolicy st op).1.held) := by
+  cases op with
+  | new v =>
+    refine ⟨fun r hr => deref_alloc_lt st v r (h.2.2.2 r hr), fun r hr => ?_⟩
+    simp only [hstep, alloc]
+    exact List.mem_append_left _ hr
+  | mutate k v => cases hm
+  | set i k =>
+    simp only [hstep]
+    cases st.held[k]? with
+    | none => exact ⟨fun _ _ => rfl, fun _ hr => hr⟩
+    | some r0 => exact ⟨fun r hr => deref_alloc_lt st _ r (h.2.2.2 r hr), fun _ hr => hr⟩
+  | add i k =>
+    simp only [hstep]
+    cases st.held[k]? with
+    | none => exact ⟨fun _ _ => rfl, fun _ hr => hr⟩
+    | some r0 =>
+      cases hq : alookup st.store i with
+      | none => exact ⟨fun _ _ => rfl, fun _ hr => hr⟩
+      | some q =>
+        refine ⟨fun r hr => ?_, fun _ hr => hr⟩
+        have hqs := alookup_mem_vals st.store i q hq
+        have hne : r ≠ q := fun e => h.2.1 q hqs (e ▸ hr)
+        simp only [deref, alookup_ainsert, if_neg hne]
+  | get i =>
+    simp only [hstep]
+    cases alookup st.store i with
+    | none => exact ⟨fun _ _ => rfl, fun _ hr => hr⟩
+    | some q =>
+      refine ⟨fun r hr => deref_alloc_lt st _ r (h.2.2.2 r hr), fun r hr => ?_⟩
+      simp only [copyIf, codePolicy, if_true, alloc]
+      exact List.mem_append_left _ hr
+  | shift m =>
+    simp only [hstep]
+    cases shiftStart st.store.length m with
+    | none => exact ⟨fun _ _ => rfl, fun _ hr => hr⟩
+    | some top =>
+      have hc : (if top = st.store.length then codePolicy.copyShiftOldest else codePolicy.copyShift) = true := by
+        split <;> rfl
+      simp only [hc]
+      have hl := hshiftLoop_spec top st h
+      exact ⟨fun r hr => hl.2.2.2.2.2 r (h.2.2.2 r hr), fun r hr => by rw [hl.2.2.2.1]; exact hr⟩
+
+/-- **Later writes do not alter what the caller holds**: over any history of storage calls and array
+    creations (the caller not overwriting its arrays itself), the contents of every array the caller
+    holds — passed in or returned by a read — stay what they were. -/
+theorem held_stable (ops : List HOp) (st : HState) (h : Sep st) (hm : ops.all (fun op => !isMutate op) = true)
+    (r : Nat) (hr : r ∈ st.held) : deref (hexec codePolicy st ops) r = deref st r := by
+  induction ops generalizing st with
+  | nil => rfl
+  | cons op ops ih =>
+    simp only [List.all_cons, Bool.and_eq_true, Bool.not_eq_eq_eq_not, Bool.not_true] at hm
+    have hs := held_stable_step st op h hm.1
+    simp only [hexec]
+    rw [ih _ (sep_step st op h) (by simpa using hm.2) (hs.2 r hr), hs.1 r hr]
+
+/-- **Reads return copies.** `get_solution_values` hands out a fresh reference with the stored
+    contents, and no later storage call changes what it contains. -/
+theorem get_returns_stable_copy (st : HState) (h : Sep st) (i q : Nat) (hq : alookup st.store i = some q)
+    (ops : List HOp) (hm : ops.all (fun op => !isMutate op) = true) :
+    (hstep codePolicy st (.get i)).2 = .val (deref st q) ∧
+      st.next ∈ (hstep codePolicy st (.get i)).1.held ∧
+      st.next ∉ (hstep codePolicy st (.get i)).1.store.map (·.2) ∧
+      deref (hexec codePolicy (hstep codePolicy st (.get i)).1 ops) st.next = deref st q := by
+  have hsep := sep_step st (.get i) h
+  have hmem : st.next ∈ (hstep codePolicy st (.get i)).1.held := by
+    simp [hstep, hq, copyIf, codePolicy, alloc]
+  refine ⟨by simp [hstep, hq], hmem, fun e => hsep.2.1 _ e hmem, ?_⟩
+  rw [held_stable ops _ hsep hm st.next hmem]
+  simp only [hstep, hq, copyIf, codePolicy, if_true]
+  exact deref_alloc_new st (deref st q)
+
 /-! ### non-vacuity: concrete histories -/
 
 /-- the abstraction relation does not depend on the storage order of the dict -/
@@ -417,5 +742,59 @@ example :
                 .set "p" [1, 1] (some 0) none true, .get "p" (some 1) none, .get "p" (some 0) none,
                 .shift "q" (some .iterate) (some (-1)), .set "q" [1] (some 0) none true]).2
       = [.ok, .ok, .ok, .val [1, 2], .val [2, 3], .ok, .err .valueError] := by decide +kernel
+
+/-- equation-system wrappers: argument order and duplicates do not matter for set/get; the blocks are
+    cut in global order; shifting a variable twice in one call shifts it twice -/
+example :
+    let lay : Layout := [("a", 2), ("b", 3)]
+    let d := touch (touch [] "a") "b"
+    let r := esSet lay d [1, 2, 3, 4, 5] ["b", "a", "b"] (some 0) none false
+    r.2 = .ok ∧ esGet lay r.1 ["a"] (some 0) none = .val [1, 2] ∧ esGet lay r.1 ["b"] (some 0) none = .val [3, 4, 5] ∧
+      esGet lay (esShift r.1 .timeStep none ["a", "a"]).1 ["a", "b"] (some 2) none = .err .keyError ∧
+      esGet lay (esShift r.1 .timeStep none ["a", "a"]).1 ["a"] (some 2) none = .val [1, 2] ∧
+      (esSet lay d [1, 2, 3, 4] ["a", "b"] (some 0) none false).2 = .err .assertionError := by decide +kernel
+
+/-- a layout read off a C05 state: two variables on one grid with two cells -/
+example :
+    let e : C05.Env := ⟨[0], [], fun _ => 2, fun _ => 7, fun _ => 6⟩
+    let s := C05.run e C05.init [.create 0 [(0, 1)] (some [0]) none, .create 1 [(0, 2)] (some [0]) none]
+    layoutOf s = [("0:0", 2), ("0:1", 4)] ∧ ((layoutOf s).map (·.1)).Nodup := by decide +kernel
+
+/-! #### the model with sharing: the code as it is, and the seeded no-copy variants -/
+
+/-- the code as it is: overwrite passed-in and returned arrays, additive write after a growing shift
+    on a single stored value — nothing leaks -/
+example : hrun codePolicy .empty
+    [.new [1, 1], .set 0 0, .mutate 0 [9, 9], .shift (some 2), .new [1/2, 0], .add 0 1, .get 1, .get 0,
+     .mutate 2 [7, 7], .mutate 3 [7, 7], .get 1, .get 0]
+    = [.ok, .ok, .ok, .ok, .ok, .ok, .val [1, 1], .val [3/2, 1], .ok, .ok, .val [1, 1], .val [3/2, 1]] := by
+  decide +kernel
+
+/-- `set` without copy: the slot shares its array with the caller -/
+example : ¬ Sep (hexec ⟨false, true, true, true⟩ .empty [.new [1, 1], .set 0 0]) := by decide +kernel
+example : hrun ⟨false, true, true, true⟩ .empty [.new [1, 1], .set 0 0, .mutate 0 [9, 9], .get 0]
+    = [.ok, .ok, .ok, .val [9, 9]] := by decide +kernel
+
+/-- `get` without copy: the caller can overwrite the store through the array it got back -/
+example : ¬ Sep (hexec ⟨true, false, true, true⟩ .empty [.new [1, 1], .set 0 0, .get 0]) := by decide +kernel
+example : hrun ⟨true, false, true, true⟩ .empty [.new [1, 1], .set 0 0, .get 0, .mutate 1 [9, 9], .get 0]
+    = [.ok, .ok, .val [1, 1], .ok, .val [9, 9]] := by decide +kernel
+
+/-- `shift` without copy: an additive write to index 0 also changes index 1 -/
+example : hrun ⟨true, true, false, false⟩ .empty
+    [.new [1, 1], .set 0 0, .shift none, .new [1/2, 0], .add 0 1, .get 1]
+    = [.ok, .ok, .ok, .ok, .ok, .val [3/2, 1]] := by decide +kernel
+
+/-- the seeded variant (only the oldest array of a growing history is moved by reference): slots 0
+    and 1 alias exactly when one value is stored … -/
+example : ¬ Sep (hexec ⟨true, true, true, false⟩ .empty [.new [1, 1], .set 0 0, .shift (some 2)]) := by
+  decide +kernel
+example : hrun ⟨true, true, true, false⟩ .empty
+    [.new [1, 1], .set 0 0, .shift (some 2), .new [1/2, 0], .add 0 1, .get 1]
+    = [.ok, .ok, .ok, .ok, .ok, .val [3/2, 1]] := by decide +kernel
+
+/-- … with two values stored the next pass of the loop overwrites the shared slot with a copy -/
+example : Sep (hexec ⟨true, true, true, false⟩ .empty [.new [1, 1], .set 0 0, .set 1 0, .shift (some 3)]) := by
+  decide +kernel
 
 end PorepyVerif.C08
